@@ -869,6 +869,28 @@ def r17_every_value_takes_part_in_the_sizing(cx, rule="R17"):
           "%d values counted in Property::process, each also reaches PropertySize::process on every path (not sized on some path: lines %s)" % (len(cs), bad or "none"))
 
 
+def _closure_fed_from(bodies, cid, field):
+    """the closure `cid` is handed to an iterator adaptor (map, for_each, try_for_each ..) whose receiver walks `field`"""
+    for bb in bodies:
+        for i, t in bb.calls(r"Iterator>::(map|for_each|try_for_each|filter_map|flat_map|fold|try_fold)::<"):
+            if len(t["args"]) < 2:
+                continue
+            from_closure = False
+            for a in t["args"][1:]:
+                l = op_base_local(a)
+                for d in bb.defs().get(l, []) if l is not None else []:
+                    if d[0] == "stmt" and d[3]["k"] == "assign" and (d[3]["rv"].get("closure_fn") == cid):
+                        from_closure = True
+                    if d[0] == "stmt" and d[3]["k"] == "assign" and d[3]["rv"]["k"] == "use":
+                        l2 = op_base_local(d[3]["rv"]["op"])
+                        for d2 in bb.defs().get(l2, []) if l2 is not None else []:
+                            if d2[0] == "stmt" and d2[3]["k"] == "assign" and d2[3]["rv"].get("closure_fn") == cid:
+                                from_closure = True
+            if from_closure and ("field", field) in bb.origins(t["args"][0]):
+                return True
+    return False
+
+
 def r18_values_are_described_in_the_order_they_are_written(cx, rule="R18"):
     """'byte arrays ... read back': a value id is the rank (indexed store) or the offset (plain store) of the value in the
     *sorted* order, `sorted_indirect`. The data block and the table of end offsets that describes it are both produced by
@@ -882,15 +904,29 @@ def r18_values_are_described_in_the_order_they_are_written(cx, rule="R18"):
             raise AnchorLost("%s::%s: %d bodies" % (ty, item, len(fs)))
         f = fs[0]
         b = F.deep_body(f, only=r"value_store::", closures=True)
-        bodies = [b] + [F.body(c) for c in F.closures_of(f) if "blocks" in c]
+        # the closures built in that body (also those of helpers inlined into it), transitively
+        bodies, seen_c, work = [b], set(), [b]
+        for c in F.closures_of(f):
+            if "blocks" in c and c["id"] not in seen_c:
+                seen_c.add(c["id"]); cb_ = F.body(c); bodies.append(cb_); work.append(cb_)
+        while work:
+            wb = work.pop()
+            for blk in wb.blocks:
+                for st in blk["s"]:
+                    cid = (st.get("rv") or {}).get("closure_fn") if st["k"] == "assign" else None
+                    if cid is not None and cid not in seen_c and cid < len(F.fns) and "blocks" in F.fns[cid]:
+                        seen_c.add(cid); cb_ = F.body(F.fns[cid]); bodies.append(cb_); work.append(cb_)
         looked_up = 0
         direct = []
         for bb in bodies:
             for i, t in bb.calls(r"as std::ops::Index(Mut)?<usize>>::index(_mut)?$"):
                 o0 = bb.origins(t["args"][0])
                 if ("field", "data") in o0:
-                    if ("field", "sorted_indirect") in bb.origins(t["args"][1]):
+                    o1 = bb.origins(t["args"][1])
+                    if ("field", "sorted_indirect") in o1:
                         looked_up += 1
+                    elif bb.f.get("kind") == "closure" and any(x[0] == "param" and x[1] >= 2 for x in o1) and _closure_fed_from(bodies, bb.f["id"], "sorted_indirect"):
+                        looked_up += 1      # `sorted_indirect.iter().map(|k| &data[*k])`: the key is the element of the walk
                     else:
                         direct.append(t.get("ln"))
             for i, t in bb.calls(r"::iter$|IntoIterator>::into_iter$|::iter_mut$|::par_iter$|::into_par_iter$|::chunks|::windows$"):
